@@ -183,7 +183,7 @@ Proof.
 Qed.
 
 Lemma ser_attrs_shape ty attrs text : Forall (AttrOk ty) attrs -> ser_attrs tab_at tab_en float_fmt attrs = Val text ->
-  (List.length attrs <= List.length text)%nat /\
+  (2 * List.length attrs <= List.length text)%nat /\
   ((attrs = [] /\ text = []) \/ exists h t, text = 32 :: h :: t /\ is_ws h = false).
 Proof.
   intros F. revert text. induction F as [|[name v] rest A FR IH]; intros text ST.
@@ -218,6 +218,45 @@ Proof.
   assert (REM0 : match position (fun c0 => negb (is_ws c0)) text with Some p => skipn p text | None => text end = skipn 1 text).
   { destruct SHAPE as [[_ ->]|(h & t & -> & HW)]; [reflexivity|]. cbn [position is_ws N.eqb Pos.eqb orb negb].
     rewrite HW. reflexivity. }
+  rewrite REM0. unfold mbind at 1. rewrite LOOP.
+  cbv [mbind get ret]. cbn [negb andb].
+  rewrite SL. cbn [lift]. rewrite (req_loop_ok _ _ _ _ REQ). reflexivity.
+Qed.
+
+(* the attribute text contains no '>' and, when not empty, ends with the closing quote *)
+Lemma ser_attrs_bytes ty attrs text : Forall (AttrOk ty) attrs -> ser_attrs tab_at tab_en float_fmt attrs = Val text ->
+  Forall (fun x => x <> 62) text /\ (text <> [] -> last text 0 = 34).
+Proof.
+  intros F. revert text. induction F as [|[name v] rest A FR IH]; intros text ST.
+  - cbn in ST. injection ST as <-. split; [constructor|congruence].
+  - destruct A as (nm & cdid & ctype & req & vm & bytes & TS & CN & _ & _ & _ & _ & SC & MF). cbn [fst snd] in *.
+    rewrite (ser_attrs_cons _ _ _ _ _ TS SC) in ST. destruct (ser_attrs tab_at tab_en float_fmt rest) as [r| |]; try discriminate ST.
+    injection ST as <-. destruct (IH r eq_refl) as [G L]. destruct (clean_name_props nm CN) as (_ & FN). split.
+    + constructor; [discriminate|]. apply Forall_app. split; [eapply Forall_impl; [|exact FN]; cbn; tauto|].
+      constructor; [discriminate|]. constructor; [discriminate|]. apply Forall_app. split.
+      * rewrite forallb_forall in MF. apply Forall_forall. intros x Hx E. subst x. specialize (MF _ Hx). discriminate MF.
+      * constructor; [discriminate|exact G].
+    + intros _.
+      assert (E : 32 :: nm ++ 61 :: 34 :: bytes ++ 34 :: r = (32 :: nm ++ 61 :: 34 :: bytes) ++ (34 :: r)).
+      { cbn [app]. f_equal. rewrite <- app_assoc. reflexivity. }
+      rewrite E, last_app_ne by discriminate. destruct r as [|r0 r']; [reflexivity|].
+      cbn [last]. apply L. discriminate.
+Qed.
+
+(* the lexer hands over the attribute text without the blank after the element name *)
+Theorem attrs_roundtrip_lexed ty attrs st text : AttrsOk ty attrs -> p_version st = ver ->
+  ser_attrs tab_at tab_en float_fmt attrs = Val text ->
+  exists c, parse_attribute_text strict T tab_at tab_en check_fn float_parse ty (skipn 1 text) st = Val (Ret attrs (set_compat st c)).
+Proof.
+  intros [F (specs & SL & REQ)] PV ST.
+  destruct (ser_attrs_shape ty attrs text F ST) as [LEN SHAPE].
+  assert (FU : (List.length attrs < S (List.length (skipn 1 text)))%nat).
+  { destruct SHAPE as [[-> ->]|(h & t & -> & _)]; [cbn; lia|]. cbn [skipn List.length] in *. lia. }
+  destruct (attr_loop_roundtrip ty attrs (S (List.length (skipn 1 text))) [] st text F PV FU ST) as (c & LOOP). cbn [app] in LOOP.
+  exists c. unfold parse_attribute_text.
+  assert (REM0 : match position (fun c0 => negb (is_ws c0)) (skipn 1 text) with Some p => skipn p (skipn 1 text) | None => skipn 1 text end
+                 = skipn 1 text).
+  { destruct SHAPE as [[_ ->]|(h & t & -> & HW)]; [reflexivity|]. cbn [skipn position]. rewrite HW. reflexivity. }
   rewrite REM0. unfold mbind at 1. rewrite LOOP.
   cbv [mbind get ret]. cbn [negb andb].
   rewrite SL. cbn [lift]. rewrite (req_loop_ok _ _ _ _ REQ). reflexivity.
